@@ -1327,6 +1327,165 @@ fn st_reopen_check(store: &Store, st: &mut Sess) -> Result<(), Fail> {
 	Ok(())
 }
 
+/// Directed growth scenario: the writing thread itself holds an open read iterator (opened before, so it must see exactly
+/// what was committed before) when it opens the batch at which the enlargement of the map becomes due. Every iterator
+/// lives across ONE batch of at most 1/32 of the initial map (so what is written while the enlargement has to wait for the
+/// thread's own reader stays far inside the 10 % headroom) and is closed before the next batch is opened; the deferred
+/// enlargement must then happen, whatever the writer held when it became due. 3.5 maps' worth of data are written:
+/// no operation may fail for lack of space, every iterator sees exactly its snapshot, nothing committed is lost
+/// (also after reopen). Variants per batch: iterator dropped after the commit / partly consumed and dropped before the
+/// commit / a nested point read under the iterator / no iterator (control).
+fn st_own_iterator_growth(dir: &str, seed: u64, sess_idx: u64, stats: &mut StStats) {
+	let scenario = "st_own_iterator_growth";
+	let mut prng = Prng::new(seed ^ sess_idx.wrapping_mul(0x9E37_79B9_7F4A_7C15) ^ 0x0C18_17E8);
+	let store = match open_store(dir, None) {
+		Ok(s) => s,
+		Err(e) => {
+			stats.fails.push((fail_from_err(scenario, "Store::new", &e), json!({"scenario": scenario, "session": sess_idx})));
+			return;
+		}
+	};
+	let size0 = data_mdb_size(dir).max(MIB);
+	let mut expect: Vec<KMap> = (0..NS).map(|_| KMap::new()).collect();
+	let mut written: u64 = 0;
+	let mut i: u32 = 0;
+	let mut fail: Option<(Fail, Value)> = None;
+	let mk_fail = |sig: String, what: String| Fail { violation: true, sig, what };
+	'outer: while written < 7 * MIB / 2 {
+		let variant = (sess_idx as u32 + i) % 4;
+		let s = (i as usize) % NS;
+		let replay = json!({"scenario": scenario, "seed": seed, "session": sess_idx, "batch": i, "variant": variant, "bytes_written": written});
+		let held = if variant != 3 {
+			st_tick(6);
+			match store.iter::<KvFn, KV>(SPACE_KEYS[s], kv_raw as KvFn) {
+				Ok(it) => Some(it),
+				Err(e) => {
+					fail = Some((fail_from_err(scenario, "iter", &e), replay));
+					break 'outer;
+				}
+			}
+		} else {
+			None
+		};
+		let snapshot_len = expect[s].len();
+		if variant == 2 {
+			// nested point read while the iterator is open
+			if let Some((k, v)) = expect[s].iter().next() {
+				match store.get_ser::<Val>(SPACE_KEYS[s], k, None) {
+					Ok(got) => {
+						if got.map(|x| enc_val(&x)).as_ref() != Some(v) {
+							fail = Some((mk_fail(format!("{};clause=nested_get", scenario), format!("get_ser({}) under an open iterator differs from the committed value", short_hex(k))), replay));
+							break 'outer;
+						}
+					}
+					Err(e) => {
+						fail = Some((fail_from_err(scenario, "get_ser", &e), replay));
+						break 'outer;
+					}
+				}
+			}
+		}
+		let len = 12 * 1024 + prng.usize_below(18 * 1024);
+		let key = format!("own{:06}", i).into_bytes();
+		let val = Val { batch_id: 7_000_000 + i as u64, batch_size: 1, seq: i, payload: vec![(i % 251) as u8; len] };
+		let enc = enc_val(&val);
+		st_tick(1);
+		let r = store.batch().and_then(|mut b| {
+			st_tick(0);
+			b.put_ser(SPACE_KEYS[s], &key, &val)?;
+			if variant == 1 {
+				Ok(Some(b))
+			} else {
+				st_tick(3);
+				b.commit()?;
+				Ok(None)
+			}
+		});
+		st_tick(0);
+		let pending = match r {
+			Ok(p) => p,
+			Err(e) => {
+				fail = Some((fail_from_err(scenario, "batch_put_commit", &e), replay));
+				break 'outer;
+			}
+		};
+		// the iterator opened before the batch sees exactly the pairs committed before it
+		if let Some(it) = held {
+			match it.collect::<Result<Vec<KV>, StoreError>>() {
+				Ok(got) => {
+					if got.len() != snapshot_len || diff_seq(&got, &expect[s]).is_some() {
+						fail = Some((mk_fail(format!("{};clause=iterator_snapshot", scenario), format!("iterator opened before batch {} returned {} pairs, {} were committed then", i, got.len(), snapshot_len)), replay));
+						break 'outer;
+					}
+					stats.op("own_iterator_growth.iterator_snapshots_exact");
+				}
+				Err(e) => {
+					fail = Some((fail_from_err(scenario, "iter.next", &e), replay));
+					break 'outer;
+				}
+			}
+		}
+		if let Some(b) = pending {
+			st_tick(3);
+			if let Err(e) = b.commit() {
+				fail = Some((fail_from_err(scenario, "commit", &e), replay));
+				break 'outer;
+			}
+			st_tick(0);
+		}
+		expect[s].insert(key, enc);
+		written += len as u64;
+		stats.op(if variant == 3 { "own_iterator_growth.batches_without_iterator" } else { "own_iterator_growth.batches_under_own_iterator" });
+		i += 1;
+	}
+	if fail.is_none() {
+		settle(&store);
+		for pass in 0..2 {
+			let st2;
+			let st_ref = if pass == 0 {
+				&store
+			} else {
+				match open_store(dir, None) {
+					Ok(x) => {
+						st2 = x;
+						&st2
+					}
+					Err(e) => {
+						fail = Some((fail_from_err(scenario, "Store::new(reopen)", &e), json!({"scenario": scenario, "seed": seed, "session": sess_idx})));
+						break;
+					}
+				}
+			};
+			for s in 0..NS {
+				match dump_space(st_ref, s) {
+					Ok(got) => {
+						if let Some((cls, det)) = diff_seq(&got, &expect[s]) {
+							fail = Some((
+								mk_fail(format!("{};clause=final_content;class={};reopened={}", scenario, cls, pass), det),
+								json!({"scenario": scenario, "seed": seed, "session": sess_idx}),
+							));
+						}
+					}
+					Err(e) => fail = Some((fail_from_err(scenario, "dump", &e), json!({"scenario": scenario, "seed": seed, "session": sess_idx}))),
+				}
+			}
+			if pass == 0 {
+				// the second pass reopens the same path: close this handle first
+				continue;
+			}
+		}
+		let size1 = data_mdb_size(dir);
+		if size1 > size0 {
+			stats.op("own_iterator_growth.sessions_in_which_the_map_grew");
+		}
+	}
+	if let Some(f) = fail {
+		stats.fails.push(f);
+	} else {
+		stats.op("own_iterator_growth.sessions_completed");
+	}
+}
+
 /// One session: a store directory used by several programs with a reopen after each.
 fn st_session(dir: &str, seed: u64, sess_idx: u64, growth: bool, nprog: usize, deadline: Instant) -> StStats {
 	init_thread();
@@ -1335,6 +1494,14 @@ fn st_session(dir: &str, seed: u64, sess_idx: u64, growth: bool, nprog: usize, d
 	let prng = Prng::new(seed.wrapping_mul(0x9E37_79B9).wrapping_add(sess_idx).wrapping_mul(0x2545_F491_4F6C_DD1D) ^ 0xC18);
 	let mut st = Sess::new(prng, growth);
 	st.stats.sessions = 1;
+	if growth {
+		let d2 = format!("{}-own", dir);
+		st_own_iterator_growth(&d2, seed, sess_idx, &mut st.stats);
+		let _ = std::fs::remove_dir_all(&d2);
+		if !st.stats.fails.is_empty() {
+			return st.stats;
+		}
+	}
 	let max_readers = if sess_idx % 3 == 1 { Some(64) } else { None };
 	let mut store = match open_store(dir, max_readers) {
 		Ok(s) => Some(s),
@@ -4130,6 +4297,16 @@ fn main_full(run: &Run, scratch: &Scratch, seed: u64) {
 	run.require("distinct commit/drop fate chains over nesting depth 0..3 (30 possible)", st.chains.len() as u64, 30);
 	run.require("outside iterators finished after a later commit", st.held_across_commit, 20);
 	run.require("map resizes in single-thread growth sessions", st.resizes, 2);
+	run.require(
+		"growth sessions in which every batch was opened under the thread's own iterator and the map grew",
+		*st.ops.get("own_iterator_growth.sessions_in_which_the_map_grew").unwrap_or(&0),
+		1,
+	);
+	run.require(
+		"batches opened while the writing thread held its own iterator (growth)",
+		*st.ops.get("own_iterator_growth.batches_under_own_iterator").unwrap_or(&0),
+		100,
+	);
 	run.require("multi-thread workers completed", done, n_mt as u64);
 	run.require("map resizes completed, minimum over workers", m("mt_resizes_completed"), tier.pick(2, 4));
 	run.require("largest single-snapshot iteration (keys), minimum over workers", m("mt_max_snapshot_keys_space0"), 10_001);
